@@ -7,7 +7,7 @@
                                      -> s_plan (the immutable part) + s_flags (sids whose step_is_done is True)
      self.api_data                   written in __init__ only; READ by every run / stream_run:
                                         _api_data = api_data if api_data is not None else self.api_data      -> s_api
-     self.runner                     the last orchestrator whose run COMPLETED:  _batch_run assigns it after
+     self.runner                     (s_gen counts the assignments) the last orchestrator whose run COMPLETED:  _batch_run assigns it after
                                      _run_engine_computation returned (an exception skips the assignment);
                                      stream_run assigns it after the generator body finished (GeneratorExit at a
                                      yield, i.e. an abandoned stream, and a raising loop skip it).
@@ -47,12 +47,13 @@ Record sess := {
   s_plan   : plan;
   s_flags  : list nat;
   s_api    : option api_data;
-  s_runner : option (list nat * option api_data)
+  s_runner : option (list nat * option api_data);
+  s_gen    : nat
 }.
 
 (* mlodaAPI.__init__: plan built (all step_is_done False), api_data stored, runner None *)
 Definition prepare (p : plan) (api0 : option api_data) : sess :=
-  {| s_plan := p; s_flags := []; s_api := api0; s_runner := None |}.
+  {| s_plan := p; s_flags := []; s_api := api0; s_runner := None; s_gen := 0 |}.
 
 Inductive op :=
   | ORun (api : option api_data) (inline : bool) (fails : list nat) (es : list event)
@@ -77,8 +78,14 @@ Definition orun (fl : list nat) (stream inline : bool) (fails : nat -> bool) (p 
 
 Definition memf (l : list nat) : nat -> bool := fun x => mem x l.
 
+(* no assignment to self.runner *)
 Definition with_state (s : sess) (fl : list nat) (r : option (list nat * option api_data)) : sess :=
-  {| s_plan := s_plan s; s_flags := fl; s_api := s_api s; s_runner := r |}.
+  {| s_plan := s_plan s; s_flags := fl; s_api := s_api s; s_runner := r; s_gen := s_gen s |}.
+(* self.runner = runner: the stored orchestrator holds result_data_collection = its.  get_result() on an empty
+   collection raises ValueError("No results found") (data_lifecycle_manager.get_results). *)
+Definition store_runner (s : sess) (fl : list nat) (its : list nat) (a : option api_data) : sess :=
+  {| s_plan := s_plan s; s_flags := fl; s_api := s_api s; s_runner := Some (its, a); s_gen := S (s_gen s) |}.
+Definition get_status (its : list nat) : rstatus := match its with [] => RRaised | _ => ROk end.
 
 (* a consumer that calls next() j times and then close(): if the stream has j items to give, the generator is left
    suspended at its j-th yield and closed there (GeneratorExit: the finally block runs, self.runner is NOT assigned);
@@ -94,8 +101,8 @@ Definition exec (copies : bool) (s : sess) (o : op) : sess * result :=
       let fin := orun (s_flags s) false inline (memf fails) (s_plan s) es in
       let fl := if copies then s_flags s else done fin in
       match loop_head (s_plan s) fin with
-      | ExitNormal => (with_state s fl (Some (rev (results fin), a)),
-                       {| r_status := ROk; r_items := rev (results fin); r_api := a |})
+      | ExitNormal => (store_runner s fl (rev (results fin)) a,     (* run() = _batch_run(); return self.get_result() *)
+                       {| r_status := get_status (results fin); r_items := rev (results fin); r_api := a |})
       | Raised => (with_state s fl (s_runner s), {| r_status := RRaised; r_items := []; r_api := a |})
       | Looping => (with_state s fl (s_runner s), {| r_status := RUnfinished; r_items := []; r_api := a |})
       end
@@ -107,14 +114,15 @@ Definition exec (copies : bool) (s : sess) (o : op) : sess * result :=
       if abandons take ys
       then (with_state s fl (s_runner s), {| r_status := RAbandoned; r_items := firstn (taken take) ys; r_api := a |})
       else match loop_head (s_plan s) fin with
-           | ExitNormal => (with_state s fl (Some (ys, a)), {| r_status := ROk; r_items := ys; r_api := a |})
+           | ExitNormal => (store_runner s fl (rev (results fin)) a,    (* the stored collection has been drained *)
+                            {| r_status := ROk; r_items := ys; r_api := a |})
            | Raised => (with_state s fl (s_runner s), {| r_status := RRaised; r_items := ys; r_api := a |})
            | Looping => (with_state s fl (s_runner s), {| r_status := RUnfinished; r_items := ys; r_api := a |})
            end
   | OGet =>
       (s, match s_runner s with
           | None => {| r_status := RNoRunner; r_items := []; r_api := None |}
-          | Some (it, a) => {| r_status := ROk; r_items := it; r_api := a |}
+          | Some (it, a) => {| r_status := get_status it; r_items := it; r_api := a |}
           end)
   end.
 
@@ -127,7 +135,7 @@ Definition alone (p : plan) (api0 : option api_data) (o : op) : result :=
       let a := set_api (eff_api api0 api) in
       let fin := run false inline (memf fails) p es in
       match loop_head p fin with
-      | ExitNormal => {| r_status := ROk; r_items := rev (results fin); r_api := a |}
+      | ExitNormal => {| r_status := get_status (results fin); r_items := rev (results fin); r_api := a |}
       | Raised => {| r_status := RRaised; r_items := []; r_api := a |}
       | Looping => {| r_status := RUnfinished; r_items := []; r_api := a |}
       end
@@ -152,7 +160,7 @@ Definition set_op_api (o : op) (e : option api_data) : op :=
 Definition op_api (o : op) : option api_data :=
   match o with ORun a _ _ _ => a | OStream a _ _ _ _ => a | OGet => None end.
 
-(* what session.get_result() returns after a history: the items of the last operation that completed *)
+(* the collection held by the orchestrator that an operation stores in self.runner, if it stores one *)
 Definition completes (p : plan) (fl : list nat) (o : op) : option (list nat) :=
   match o with
   | ORun _ inline fails es =>
@@ -161,7 +169,7 @@ Definition completes (p : plan) (fl : list nat) (o : op) : option (list nat) :=
   | OStream _ inline fails es take =>
       let fin := orun fl true inline (memf fails) p es in
       if abandons take (rev (yielded fin)) then None
-      else match loop_head p fin with ExitNormal => Some (rev (yielded fin)) | _ => None end
+      else match loop_head p fin with ExitNormal => Some (rev (results fin)) | _ => None end
   | OGet => None
   end.
 
@@ -180,7 +188,8 @@ Record obs := {
   ob_items : list nat;              (* observed result keys (sids), any order *)
   ob_runner_changed : bool;         (* session.runner is a different object than before the operation *)
   ob_flags : list nat;              (* sids with step_is_done = True on session.engine.execution_planner afterwards *)
-  ob_api_kept : bool                (* session.api_data is still the object given to prepare *)
+  ob_api_kept : bool;               (* session.api_data is still the object given to prepare *)
+  ob_seen : option (option api_data) (* the api data the run's api-backed root received (None: not observed) *)
 }.
 
 Definition op_of (p : plan) (b : obs) : op :=
@@ -192,12 +201,18 @@ Definition op_of (p : plan) (b : obs) : op :=
   | KGet => OGet
   end.
 
+Fixpoint leqb {A} (e : A -> A -> bool) (a b : list A) : bool :=
+  match a, b with [], [] => true | x :: a', y :: b' => e x y && leqb e a' b' | _, _ => false end.
+Definition api_eqb (a b : api_data) : bool :=
+  leqb (fun x y => String.eqb (fst x) (fst y) &&
+                   leqb (fun c d => String.eqb (fst c) (fst d) && leqb Z.eqb (snd c) (snd d)) (snd x) (snd y)) a b.
+Definition oapi_eqb (a b : option api_data) : bool :=
+  match a, b with None, None => true | Some x, Some y => api_eqb x y | _, _ => false end.
+
 Definition status_eqb (a b : rstatus) : bool :=
   match a, b with ROk, ROk | RRaised, RRaised | RUnfinished, RUnfinished | RAbandoned, RAbandoned | RNoRunner, RNoRunner => true
   | _, _ => false end.
 Definition set_eqb (a b : list nat) : bool := subset a b && subset b a.
-Definition runner_changed (o : op) (st : rstatus) : bool :=
-  match o, st with OGet, _ => false | _, ROk => true | _, _ => false end.
 
 Fixpoint chk_ops (s : sess) (h : list obs) : bool :=
   match h with
@@ -212,8 +227,9 @@ Fixpoint chk_ops (s : sess) (h : list obs) : bool :=
         | RAbandoned => subset (ob_items b) full && Nat.eqb (List.length (ob_items b)) (List.length (r_items r))
         | _ => subset (ob_items b) full
         end)
-    && Bool.eqb (runner_changed o (r_status r)) (ob_runner_changed b)
+    && Bool.eqb (negb (Nat.eqb (s_gen s') (s_gen s))) (ob_runner_changed b)
     && set_eqb (s_flags s') (ob_flags b) && ob_api_kept b
+    && (match ob_seen b with None => true | Some x => oapi_eqb x (r_api r) end)
     && chk_ops s' t
   end.
 
